@@ -140,6 +140,11 @@ def run_mgs(case, viol, obs):
         return hashlib.sha1(desc.encode()).hexdigest()[:14], kstar >= 2
     sol = m.get_solution()
     if len(sol) != kstar:
+        if len(sol) > kstar:
+            # classify: with HiGHS' presolve switched off the minimum is found => the solver (trusted base) declared a feasible model infeasible
+            m2 = M.safe_call(fp.MinGenSet, **dict(kw, numbers=list(nums), solver_options=dict(SO, presolve="off")))
+            if m2[0] == "ok" and M.safe_call(m2[1].solve)[0] == "ok" and m2[1].is_solved() and len(m2[1].get_solution()) == kstar:
+                tag = "/solver-presolve-declares-feasible-model-infeasible"
         viol.append({"sig": ("C15/mgs-not-minimum" if len(sol) > kstar else "C15/mgs-below-reference") + tag, "msg": f"returned {sol} (size {len(sol)}), minimum size {kstar}; {desc}"})
     # validity of the returned set
     if any(x < 0 for x in sol) or any((wt is int and not isinstance(x, int)) for x in sol):
